@@ -10,6 +10,7 @@
 import LpProofs.C06.Factorial
 import LpProofs.C06.Lentz
 import LpProofs.C06.Inverse
+import LpProofs.C06.Binomial
 
 namespace Lp.C06
 open Nat
@@ -89,8 +90,8 @@ theorem binomial_floor (n k : Nat) (h : k ≤ n) :
 
 /-- the code path `0 ≤ k ≤ n ≤ 170` from any table satisfying the invariant returns `C(n,k)` and
     keeps the invariant -/
-theorem binomial_spec (big : Nat → Nat → Rat) (t : Tbl) (n k : Nat) (ht : TblInv t) (hk : k ≤ n) (hn : n ≤ 170) :
-    (binomial big t (n : Int) (k : Int)).1 = .ok ((n.choose k : Nat) : Rat) ∧ TblInv (binomial big t (n : Int) (k : Int)).2 := by
+theorem binomial_spec (t : Tbl) (n k : Nat) (ht : TblInv t) (hk : k ≤ n) (hn : n ≤ 170) :
+    (binomial t (n : Int) (k : Int)).1 = .ok ((n.choose k : Nat) : Rat) ∧ TblInv (binomial t (n : Int) (k : Int)).2 := by
   obtain ⟨m, hm, rfl⟩ := ht
   have h1 : ¬ ((k : Int) < 0 ∨ (n : Int) < 0) := by omega
   have h2 : ¬ ((n : Int) < (k : Int)) := by omega
@@ -105,54 +106,48 @@ theorem binomial_spec (big : Nat → Nat → Rat) (t : Tbl) (n k : Nat) (ht : Tb
   exact ⟨by rw [floor_formula n k hk], ⟨_, le_trans hm2 (le_max_left _ _), rfl⟩⟩
 
 /-- Pascal's rule and symmetry for the values the model returns (`n+1 ≤ 170`) -/
-theorem binomial_pascal (big : Nat → Nat → Rat) (t₁ t₂ t₃ : Tbl) (n k : Nat) (h₁ : TblInv t₁) (h₂ : TblInv t₂) (h₃ : TblInv t₃)
+theorem binomial_pascal (t₁ t₂ t₃ : Tbl) (n k : Nat) (h₁ : TblInv t₁) (h₂ : TblInv t₂) (h₃ : TblInv t₃)
     (hk : k + 1 ≤ n) (hn : n + 1 ≤ 170) :
-    ∃ c c₁ c₂ : Rat, (binomial big t₁ ((n + 1 : Nat) : Int) ((k + 1 : Nat) : Int)).1 = .ok c ∧
-      (binomial big t₂ (n : Int) (k : Int)).1 = .ok c₁ ∧ (binomial big t₃ (n : Int) ((k + 1 : Nat) : Int)).1 = .ok c₂ ∧ c = c₁ + c₂ := by
-  refine ⟨_, _, _, (binomial_spec big t₁ (n + 1) (k + 1) h₁ (by omega) hn).1, (binomial_spec big t₂ n k h₂ (by omega) (by omega)).1,
-    (binomial_spec big t₃ n (k + 1) h₃ hk (by omega)).1, ?_⟩
+    ∃ c c₁ c₂ : Rat, (binomial t₁ ((n + 1 : Nat) : Int) ((k + 1 : Nat) : Int)).1 = .ok c ∧
+      (binomial t₂ (n : Int) (k : Int)).1 = .ok c₁ ∧ (binomial t₃ (n : Int) ((k + 1 : Nat) : Int)).1 = .ok c₂ ∧ c = c₁ + c₂ := by
+  refine ⟨_, _, _, (binomial_spec t₁ (n + 1) (k + 1) h₁ (by omega) hn).1, (binomial_spec t₂ n k h₂ (by omega) (by omega)).1,
+    (binomial_spec t₃ n (k + 1) h₃ hk (by omega)).1, ?_⟩
   rw [Nat.choose_succ_succ]; push_cast; rfl
 
-theorem binomial_symm (big : Nat → Nat → Rat) (t₁ t₂ : Tbl) (n k : Nat) (h₁ : TblInv t₁) (h₂ : TblInv t₂) (hk : k ≤ n) (hn : n ≤ 170) :
-    (binomial big t₁ (n : Int) (k : Int)).1 = (binomial big t₂ (n : Int) ((n - k : Nat) : Int)).1 := by
-  rw [(binomial_spec big t₁ n k h₁ hk hn).1, (binomial_spec big t₂ n (n - k) h₂ (by omega) hn).1, Nat.choose_symm hk]
+theorem binomial_symm (t₁ t₂ : Tbl) (n k : Nat) (h₁ : TblInv t₁) (h₂ : TblInv t₂) (hk : k ≤ n) (hn : n ≤ 170) :
+    (binomial t₁ (n : Int) (k : Int)).1 = (binomial t₂ (n : Int) ((n - k : Nat) : Int)).1 := by
+  rw [(binomial_spec t₁ n k h₁ hk hn).1, (binomial_spec t₂ n (n - k) h₂ (by omega) hn).1, Nat.choose_symm hk]
 
 /-- `n < k` → 0 -/
-theorem binomial_lt (big : Nat → Nat → Rat) (t : Tbl) (n k : Int) (h0 : 0 ≤ n) (h : n < k) :
-    binomial big t n k = (.ok 0, t) := by
+theorem binomial_lt (t : Tbl) (n k : Int) (h0 : 0 ≤ n) (h : n < k) :
+    binomial t n k = (.ok 0, t) := by
   unfold binomial
   rw [if_neg (by omega), if_pos h]
 
 /-- negative argument → diagnostic -/
-theorem binomial_neg (big : Nat → Nat → Rat) (t : Tbl) (n k : Int) (h : k < 0 ∨ n < 0) :
-    binomial big t n k = (.error .diag, t) := by
+theorem binomial_neg (t : Tbl) (n k : Int) (h : k < 0 ∨ n < 0) :
+    binomial t n k = (.error .diag, t) := by
   unfold binomial
   rw [if_pos h]
 
-/-- `n > 170`: the result is `C(n,k)` as soon as the glue `exp(GammaLn(n+1) − GammaLn(k+1) −
-    GammaLn(n−k+1))` is within `1/2` of it (what is needed of the transcendental part). -/
-theorem binomial_big (big : Nat → Nat → Rat) (t : Tbl) (n k : Nat) (hk : k ≤ n) (hn : 170 < n)
-    (hb : ((n.choose k : Nat) : Rat) - 1 / 2 ≤ big n k ∧ big n k < ((n.choose k : Nat) : Rat) + 1 / 2) :
-    binomial big t (n : Int) (k : Int) = (.ok ((n.choose k : Nat) : Rat), t) := by
+/-- **n > 170** (after `fix:` 3be6423): the gcd-reduced product is `C(n,k)` exactly, for every `0 ≤ k ≤ n`
+    (no bound on `n`), the table is not touched, and the value is symmetric in `k ↔ n-k` by construction -/
+theorem binomial_large (t : Tbl) (n k : Nat) (hk : k ≤ n) (hn : 170 < n) :
+    binomial t (n : Int) (k : Int) = (.ok ((n.choose k : Nat) : Rat), t) := by
   have h1 : ¬ ((k : Int) < 0 ∨ (n : Int) < 0) := by omega
   have h2 : ¬ ((n : Int) < (k : Int)) := by omega
   have h3 : ((n : Int) > 170) := by omega
   unfold binomial
   rw [if_neg h1, if_neg h2, if_pos h3]
   simp only [Int.toNat_natCast]
-  have : ((1 : Rat) / 2 + big n k).floor = ((n.choose k : Nat) : Int) := by
-    change ⌊(1 : Rat) / 2 + big n k⌋ = _
-    rw [Int.floor_eq_iff]
-    constructor
-    · push_cast; linarith [hb.1]
-    · push_cast; linarith [hb.2]
-  rw [this]
-  push_cast
-  rfl
+  rw [binomProduct_eq_choose n k hk]
 
-example : (binomial (fun _ _ => 0) tbl0 10 3).1 = .ok 120 := by decide +kernel
-example : (binomial (fun _ _ => 0) tbl0 3 10).1 = .ok 0 := by decide +kernel
-example : (binomial (fun _ _ => 0) tbl0 (-1) 2).1 = .error .diag := by decide +kernel
+theorem binomProduct_symm (n k : Nat) (hk : k ≤ n) : binomProduct n k = binomProduct n (n - k) := by
+  rw [binomProduct_eq_choose n k hk, binomProduct_eq_choose n (n - k) (by omega), Nat.choose_symm hk]
+
+example : (binomial tbl0 10 3).1 = .ok 120 := by decide +kernel
+example : (binomial tbl0 3 10).1 = .ok 0 := by decide +kernel
+example : (binomial tbl0 (-1) 2).1 = .error .diag := by decide +kernel
 
 /-! ## GammaQ / GammaP: branch selection and the identities that hold by construction -/
 
@@ -270,6 +265,14 @@ theorem gammaQ_eq_raw (E : Parts) (x a r : Rat) (h : gammaQRaw E x a = .ok r) (h
     cases br with
     | zero => simp [gammaQRaw, hb] at h; rw [← h]
     | quad | series | cf => simp only; rw [h]; simp [Except.map, clamp01_noop r h0 h1]
+
+/-- the re-association of `fix:` 61f965b is value-neutral: `log(c·sum) − log x = log(c·sum/x)` as soon as `log` turns
+    quotients of positive numbers into differences (in double the quotient overflowed for x < 4.6e-307) -/
+theorem gammaLn_reassoc (T : Transc) (hlog : ∀ a b, 0 < a → 0 < b → T.log (a / b) = T.log a - T.log b)
+    (x s : Rat) (hx : 0 < x) (hs : 0 < s) : gammaLnGlue T x s = gammaLnGlueQuot T x s := by
+  unfold gammaLnGlue gammaLnGlueQuot
+  have hc : (0 : Rat) < sqrt2pi * s := mul_pos (by unfold sqrt2pi; norm_num) hs
+  rw [hlog _ _ hc hx]
 
 theorem gammaLn_guard (T : Transc) (x : Rat) : (∃ v, gammaLn T x = .ok v) ↔ 0 < x := by
   unfold gammaLn
@@ -421,9 +424,19 @@ theorem invGammaP_guard (T : Transc) (P : Rat → Rat → Except Err Rat) (p a :
   unfold invGammaP invBranch
   rw [if_pos ha]
 
-theorem invGammaP_bottom (T : Transc) (P : Rat → Rat → Except Err Rat) (p a : Rat) (ha : 0 < a) (hp : p ≤ 0) :
-    invGammaP T P p a = .ok 0 := by
+theorem invGammaP_bottom (T : Transc) (P : Rat → Rat → Except Err Rat) (a : Rat) (ha : 0 < a) :
+    invGammaP T P 0 a = .ok 0 := by
   unfold invGammaP invBranch
-  rw [if_neg (not_le.mpr ha), if_neg (by intro h; linarith), if_pos hp]
+  rw [if_neg (not_le.mpr ha), if_neg (by norm_num), if_neg (by norm_num), if_pos (le_refl _)]
+
+/-- after `fix:` d65f15f a `p` (or `q`) outside [0,1] is rejected -/
+theorem invGamma_not_probability (T : Transc) (P : Rat → Rat → Except Err Rat) (p a : Rat) (hp : p < 0 ∨ 1 < p) :
+    invGammaP T P p a = .error .diag ∧ invGammaQ T P p a = .error .diag := by
+  constructor
+  · unfold invGammaP invBranch
+    by_cases ha : a ≤ 0
+    · rw [if_pos ha]
+    · rw [if_neg ha, if_pos hp]
+  · unfold invGammaQ; rw [if_pos hp]
 
 end Lp.C06
